@@ -13,8 +13,8 @@ echo "== build + suite on the changed tree"
 ( cd $work/repo && go build -o /dev/null ./cmd/basm ./cmd/bondgo ./cmd/bondmachine ./cmd/procbuilder ./cmd/neuralbond ./cmd/bmqsim ./cmd/simfinetune ) && echo "tools build: ok" || echo "tools build: FAIL"
 ( cd $work/repo && go test -vet=off -count=1 ./pkg/basm ./pkg/bcof ./pkg/bmline ./pkg/bmnumbers ./pkg/bmreqs ./pkg/bmserialize ./pkg/bmstack ./pkg/bondgo ./pkg/bondirect ./pkg/bondmachine ./pkg/procbuilder ./pkg/simbox 2>&1 | grep -E "^(ok|FAIL|---)" | grep -v "^ok" | tr '\n' ';' ); echo
 echo "== demo"
-( cd $src/demo && sh ./run.sh $work/repo >$work/demo_changed.log 2>&1 ); echo "demo on changed tree: exit $?"
-( cd $src/demo && sh ./run.sh $work/clean >$work/demo_clean.log 2>&1 ); echo "demo on clean tree: exit $?"
+( cd $src/demo && bash ./run.sh $work/repo >$work/demo_changed.log 2>&1 ); echo "demo on changed tree: exit $?"
+( cd $src/demo && bash ./run.sh $work/clean >$work/demo_clean.log 2>&1 ); echo "demo on clean tree: exit $?"
 echo "== check $prop against the changed tree"
 cd /verif && bin/verif check $prop --tier quick --repo $work/repo "$@" >$work/check.log 2>&1; rc=$?
 echo "check exit $rc"; grep "^violation\|^VIOLATION\|further new" $work/check.log | head -8; tail -1 $work/check.log
